@@ -324,6 +324,8 @@ func runC18(c *Ctx) {
 		} else {
 			r.Bad("C18.R3", FuncID(fn), "written==StreamLength", p.Pos(fn.Pos()), "writeStream no longer checks that the bytes written equal *sd.StreamLength")
 		}
+	} else {
+		r.Bad("C18.R3", "pkg/pdfcpu.writeStream", "anchor", "", "UNRESOLVED-ANCHOR: function not found")
 	}
 	// ---- R4
 	if fn := p.Func("pkg/pdfcpu/model.(*XRefTable).EnsureValidFreeList"); fn == nil {
